@@ -100,6 +100,11 @@ PROPS = {
                                         "the generated-code leg (schemas A/A' through the compiler) belongs to C05's machinery"]}),
 }
 
+# C01, continued: reading a written tree back to any depth (Props/C01Read.lean)
+PROPS["C01"]["audit_imports"].append("SpecVerif.Props.C01Read")
+PROPS["C01"]["lean_targets"].insert(1, "SpecVerif.Props.C01Read")
+PROPS["C01"]["theorems"].append("SpecVerif.C01.read_path")
+
 # ---------------------------------------------------------------- mpx properties
 
 MPX_FLAG = r" VIOL"
